@@ -66,7 +66,7 @@ def generate(streams, tier):
     str_labels = isinstance(world["labels"][0], str)
     for _ in range(rw.randint(2, 5)):
         k = weighted(rw, [("forward", 4), ("rejection", 3), ("lw", 3), ("gibbs_kernel", 1), ("gibbs_sample", 1), ("simulate", 3 if str_labels else 0),
-                          ("law_forward", 1), ("law_rejection", 1)])
+                          ("law_forward", 1), ("law_rejection", 1), ("law_simulate", 1 if str_labels else 0)])
         op = {"op": k, "seed": rw.randrange(2**31), "size": rw.choice([1, 2, 7, 50, 400]), "include_latents": rw.random() < 0.5,
               "perturb": [rw.randrange(2**31) for _ in range(2)]}
         if k in ("rejection", "lw", "law_rejection", "simulate"):
@@ -87,8 +87,8 @@ def generate(streams, tier):
             op["do"] = {}
             if cand and rw.random() < 0.5:
                 v = rw.choice(cand)
-                marg = ref.posterior([v])
-                ok_states = [s for s in range(world["card"][v]) if marg[s] > 0.02]
+                # any state, also one the variable never takes on its own: an intervention sets it regardless
+                ok_states = list(range(world["card"][v]))
                 if ok_states:
                     op["do"] = {str(v): rw.choice(ok_states)}
             if op["do"]:
@@ -100,12 +100,34 @@ def generate(streams, tier):
                     v = rw.choice(cand2)
                     op["virt"] = [[v, [rw.choice([0.1, 0.25, 0.5, 0.9, 1.0]) for _ in range(world["card"][v])]]]
             op["size"] = rw.choice([1, 5, 40])
+        if k == "law_simulate":
+            # simulate under a hard intervention (and possibly evidence): the law is the truncated factorisation
+            v = rw.randrange(n)
+            op["do"] = {str(v): rw.randrange(world["card"][v])}
+            wd = do_world(world, {v: op["do"][str(v)]})
+            refd = RefJoint.from_bn(wd)
+            op["ev"] = {}
+            if n >= 2 and rw.random() < 0.5:
+                u = rw.choice([x for x in range(n) if x != v])
+                ok = [s_ for s_ in range(world["card"][u]) if refd.prob_evidence({u: s_}) > 0.1]
+                if ok:
+                    op["ev"] = {str(u): rw.choice(ok)}
+            op["size"] = (20000 if not op["ev"] else 4000) if not big else (100000 if not op["ev"] else 20000)
         if k == "law_forward":
             op["size"] = 20000 if not big else 100000
         if k == "law_rejection":
             op["size"] = 4000 if not big else 20000
         ops.append(op)
     return {"world": world, "config": config, "shared": rw.random() < 0.6, "ops": ops}
+
+
+def do_world(world, do):
+    """The world after the hard intervention do(X = x): no parents, point mass."""
+    w = copy.deepcopy(world)
+    for v, s_ in do.items():
+        w["parents"][v] = []
+        w["tables"][v] = [[1.0 if i == s_ else 0.0] for i in range(w["card"][v])]
+    return w
 
 
 def describe(case):
@@ -363,6 +385,23 @@ def execute(case, ctx):
                     ctx.fail("reproducible", f"{PROP}:not_reproducible:gibbs", {"size": size, "seed": seed})
                 if len(a) != size:
                     ctx.fail("row_count", f"{PROP}:row_count:gibbs", {"got": len(a), "want": size})
+            elif k == "law_simulate":
+                do = {int(a_): int(b_) for a_, b_ in op.get("do", {}).items() if int(a_) < n and int(b_) < card[int(a_)]}
+                if not do or any(v in do for v in ev):
+                    continue
+                wd = do_world(world, do)
+                refd = RefJoint.from_bn(wd)
+                if ev and refd.prob_evidence(ev) <= 0.05:
+                    continue
+                a = model.simulate(n_samples=size, do={L(v): names.S(v, s) for v, s in do.items()}, evidence={L(v): names.S(v, s) for v, s in ev.items()},
+                                   include_latents=True, seed=seed, show_progress=False)
+                ctx.checked += 1
+                fixed = dict(ev)
+                fixed.update(do)
+                rows = check_frame(a, expect_cols(True), size, "simulate_do", fixed=fixed, support=False)
+                if rows is not None:
+                    ctx.probe("simulate_law_under_do")
+                    _law(ctx, wd, rows, ev if ev else None, "simulate_do", refd)
             elif k == "simulate":
                 do = {int(a_): int(b_) for a_, b_ in op.get("do", {}).items() if int(a_) < n and int(b_) < card[int(a_)]}
                 virt = [(int(v), list(l)) for v, l in op.get("virt", []) if int(v) < n and len(l) == card[int(v)]]
